@@ -19,8 +19,12 @@ RULE = ('pairs of MBF single (4-byte) and double (8-byte) bit patterns, one case
 EXPLANATION = ('theorems (PcbV.Props.C04) about the shared MBF model for any well-formed format: normalise delivers a '
                'valid pattern within half an ulp of its input (half-even on the low byte), Overflow with the signed '
                'maximum / zero exactly by the rounded exponent, division by zero, the product is formed exactly and '
-               'the multiplication error is below 5/8 ulp, results become zero only below 2^-128, aligned addition '
-               'and division by powers of two are exact before rounding; correspondence: result bytes and error '
+               'the multiplication error is at most 5/8 ulp, products become zero only below 2^-128; addition and '
+               'subtraction are within 3/2 ulp for ALL stored operands and exponent differences (add_error, sub_error: '
+               'alignment loss, sticky bit, carry, shortcut, GW-BASIC subtraction quirk), division is within '
+               '(1/2 + w/128) ulp < 1 ulp for ALL stored operands with a non-zero divisor (div_error, from the loop '
+               'invariant of the shift-and-subtract loop with its lossy right-shifting divisor), for Single and Double; '
+               'correspondence: result bytes and error '
                'kinds of the real Float methods and of values.add/sub/mul/div against the compiled Lean model; '
                'oracle: exact fractions.Fraction result against the value of the result bytes in ulps of the result '
                '(<= 2 for + and -, < 1 for * and /), Overflow only above the largest number and with the signed '
@@ -30,8 +34,9 @@ TRUSTED_BASE = ['model PcbV.Model.Mbf / MbfMulFixed (and PcbV.Model.Promote for 
                 'vlib.mbf.val (exact value of a byte pattern)']
 ASSUMPTIONS = ['struct.pack/unpack little-endian formats behave as documented',
                'a FloatErrorHandler with a console returns the substituted maximum after writing the message',
-               'the general <= 2 ulp bound for + and - and the < 1 ulp bound for / are covered by correspondence and '
-               'oracle only (theorems: exponent-aligned addition, division by powers of two)']
+               'for + - / the clauses Overflow-only-above-the-maximum and zero-only-below-2^-128 are proved relative to the '
+               'denormalised value handed to _normalise, not to the exact sum/quotient: those two clauses are covered by '
+               'correspondence and oracle (for * they are proved exactly)']
 
 OPS = ('add', 'sub', 'mul', 'div')
 SYM = {'add': '+', 'sub': '-', 'mul': '*', 'div': '/'}
